@@ -53,7 +53,8 @@ Evaluation
   literal(value) -> str                    Meson source text of a literal for an elementary value
   evaluate_expression(text, env) -> value  evaluate one expression; env maps variable names to values
                                            (not modified); raises RefSyntaxError/RefRuntimeError/RefUnspecified
-  Evaluator(files, subproject_dir='subprojects')
+  Evaluator(files, subproject_dir='subprojects')      attributes max_steps, max_value_len: resource limits
+      (exceeding them gives RefUnspecified)
       files: {'meson.build': text, 'sub/meson.build': text, 'subprojects/s/meson.build': text, ...}
       .run() -> Outcome
   Outcome: .messages  list of (subproject_name, text) in print order ('' = main project)
@@ -876,6 +877,7 @@ class Evaluator:
         self.stmt: T.Optional[Node] = None     # innermost simple statement being evaluated (for error spans)
         self.steps = 0
         self.max_steps = 2_000_000
+        self.max_value_len: T.Optional[int] = 1_000_000   # str/array longer than this: RefUnspecified (resource limit)
 
     # ---- driver -----------------------------------------------------------------------------
     def run(self) -> Outcome:
@@ -1146,6 +1148,8 @@ class Evaluator:
         self.cover[f'op:{"+=" if plusassign else "+"}:{tname(l)}:{tname(r)}'] += 1
         if tl is int and tr is int:
             return l + r
+        if tl in (str, list) and tr is tl and self.max_value_len is not None and len(l) + len(r) > self.max_value_len:
+            raise RefUnspecified('value larger than the reference is willing to build')
         if tl is str and tr is str:
             return l + r
         if tl is list:
@@ -1169,6 +1173,8 @@ class Evaluator:
             if op == '-':
                 return l - r
             if op == '*':
+                if self.max_value_len is not None and l.bit_length() + r.bit_length() > 4 * self.max_value_len:
+                    raise RefUnspecified('integer larger than the reference is willing to build')
                 return l * r
             if r == 0:
                 raise RefRuntimeError('division by zero')
@@ -1388,6 +1394,8 @@ class Evaluator:
             if tn == 'str' and name == 'version_compare':
                 raise RefUnspecified('version_compare belongs to the version reference (C19)')
             raise RefRuntimeError(f'{tn} has no method {name}')
+        if self.max_value_len is not None and sum(len(x) for x in pos if type(x) in (str, list)) > self.max_value_len:
+            raise RefUnspecified('arguments larger than the reference is willing to handle')
         return fn(obj, pos, kw)
 
     # str
@@ -1415,6 +1423,8 @@ class Evaluator:
         self._sig('replace()', pos, kw, [str, str])
         if pos[0] == '':
             raise RefUnspecified('replace() of the empty string')
+        if self.max_value_len is not None and s.count(pos[0]) * len(pos[1]) > self.max_value_len:
+            raise RefUnspecified('value larger than the reference is willing to build')
         return s.replace(pos[0], pos[1])
 
     def _m_str_strip(self, s: str, pos: T.List[T.Any], kw: T.Dict[str, T.Any]) -> T.Any:
